@@ -199,3 +199,25 @@ func (w *warnLog) Write(p []byte) (int, error) {
 	w.n += n
 	return len(p), nil
 }
+
+// RetireDir removes the directory of a finished case with a delay of a few cases: a database instance of the
+// code under test that is still finishing a background job when the case ends (a close that was bounded, a
+// controller replaced during an election) would otherwise find its files gone, and Pebble ends the whole process
+// on that (Fatalf -> os.Exit(1)).
+var (
+	retireMu sync.Mutex
+	retired  []string
+)
+
+func RetireDir(dir string) {
+	retireMu.Lock()
+	retired = append(retired, dir)
+	var old string
+	if len(retired) > 12 {
+		old, retired = retired[0], retired[1:]
+	}
+	retireMu.Unlock()
+	if old != "" {
+		_ = os.RemoveAll(old)
+	}
+}
